@@ -94,7 +94,10 @@ class Slice:
         hi = NONE if hi is None else hi
         step = NONE if step is None else step
         self.lo, self.hi, self.step = lo, hi, step
-        self.key = f'S[{vkey(lo)}:{vkey(hi)}:{vkey(step)}]'
+        # equality is modulo 0:n == :n and a:b:1 == a:b (the written bounds stay available)
+        klo = NONE if isinstance(lo, Poly) and lo.is_zero() else lo
+        kstep = NONE if isinstance(step, Poly) and step.const_value() == 1 else step
+        self.key = f'S[{vkey(klo)}:{vkey(hi)}:{vkey(kstep)}]'
 
     def __eq__(self, other):
         return isinstance(other, Slice) and self.key == other.key
@@ -449,6 +452,21 @@ def _scalar_index(k):
     return True
 
 
+def _nonneg_index(k):
+    """a non-negative integer index: a constant >= 0 or a non-negative combination of iteration counters"""
+    if not isinstance(k, Poly):
+        return False
+    if k.const_value() is not None:
+        return k.const_value() >= 0 and k.const_value().denominator == 1
+    for m, c in k.terms:
+        if c < 0 or Fraction(c).denominator != 1:
+            return False
+        for a, e in m:
+            if a[0] != 'iter' or e < 0:
+                return False
+    return True
+
+
 def _plain_slice(s):
     return isinstance(s, Slice) and s.step in (NONE, None)
 
@@ -463,6 +481,12 @@ def compose_keys(k1, k2):
         if all(_scalar_index(i) or _plain_slice(i) for i in i2):
             return Tup(i1 + i2)
         return None
+    if len(i1) == 1 and isinstance(i1[0], Slice) and len(i2) == 1 and _nonneg_index(i2[0]) and \
+            isinstance(i1[0].lo, (Poly, Const)) and (i1[0].step == NONE or (isinstance(i1[0].step, Poly)
+                                                                         and (i1[0].step.const_value() or 0) > 0)):
+        a = Poly.const(0) if i1[0].lo == NONE else i1[0].lo
+        if isinstance(a, Poly):
+            return a + (i2[0] if i1[0].step == NONE else i1[0].step * i2[0])
     if len(i1) == 1 and _plain_slice(i1[0]) and len(i2) >= 1 and isinstance(i1[0].lo, (Poly, Const)):
         a = Poly.const(0) if i1[0].lo == NONE else i1[0].lo
         b = i1[0].hi
@@ -502,7 +526,8 @@ def index(base, key):
     if a[0] == 'app' and a[1] == 'setitem' and len(a[2]) == 3 and a[2][1] == key and isinstance(a[2][2], Poly) \
             and isinstance(key, (Poly, Slice, Tup)):
         return a[2][2]            # read back what was just stored under the same key
-    if a[0] == 'idx' and a[1][0] in ('sym', 'attr', 'loop', 'iter') and isinstance(key, (Poly, Slice, Tup)):
+    if a[0] == 'idx' and isinstance(key, (Poly, Slice, Tup)) and \
+            (a[1][0] in ('sym', 'attr', 'loop', 'iter') or isinstance(a[2], Slice)):
         k = compose_keys(a[2], key)
         if k is not None:
             return Poly.atom(('idx', a[1], k))
